@@ -2,7 +2,7 @@
    Model: Build.build with a failure oracle `fails` and the in-build flag.  Statements only;
    proofs are in theories/Traverse_proofs.v and theories/Build_proofs.v. *)
 From Fiddle Require Import PyBase PySlice Sig ArgStore PyCall Heap Traverse Build Build_stmt
-  Traverse_proofs Build_proofs Anchors.
+  Traverse_proofs Build_proofs AnchorsBuild.
 
 (* (hypotheses: dict / named-tuple keys are distinct, as in Python; the raising node is a Config,
    not an unfilled TaggedValue, whose own error is not governed by the failure oracle)
